@@ -48,6 +48,7 @@ type Property struct {
 	Outside     []string
 	Rule        string
 	Extra       func(r *Runner) // additional non-harness obligations
+	Hooks       []HookSpec
 }
 
 type HarnessResult struct {
@@ -264,7 +265,7 @@ func (r *Runner) runHarness(rel string, fn *ssa.Function, workers int) *HarnessR
 func (r *Runner) Run() int {
 	t0 := time.Now()
 	prop := r.Prop
-	L, err := Load(prop.Pkgs)
+	L, err := Load(prop.Pkgs, prop.Hooks...)
 	if err != nil {
 		fmt.Println("CHECK-BROKEN:", err)
 		return 2
@@ -363,6 +364,13 @@ func (r *Runner) Run() int {
 				// the allocation bound is checked by the meter; natively we confirm
 				// that the same input drives the real decoder to request the memory
 				confirmed = rr.Kind == "alloc" || rr.Kind == "hang" || rr.Kind == "panic" || rr.Kind == "assert"
+			}
+			if !confirmed && f.OverApprox {
+				// a candidate on a path whose branch conditions left the exact
+				// domain counts only if it reproduces natively
+				fo.Class = "over-approximation-artefact"
+				outs = append(outs, fo)
+				continue
 			}
 			if !confirmed {
 				fo.Class = "unconfirmed"
